@@ -1,7 +1,548 @@
 package rules
 
 import (
+	"fmt"
+	"go/ast"
+	"go/token"
+	"regexp"
+	"sort"
+	"strings"
+
+	"golang.org/x/tools/go/ssa"
+
+	"verif/checker/boundx"
 	"verif/checker/core"
+	"verif/checker/ssax"
 )
 
-func c01Commands(ctx *core.Ctx) {}
+// builtinCmds reads the scriptCmds table: name -> implementing function.
+func builtinCmds(p *core.Prog) map[string]*ssa.Function {
+	out := map[string]*ssa.Function{}
+	sp := p.Pkg("testscript")
+	if sp == nil {
+		return out
+	}
+	init := sp.Func("init")
+	if init == nil {
+		return out
+	}
+	graph(p, init).Instrs(func(i ssa.Instruction) {
+		mu, ok := i.(*ssa.MapUpdate)
+		if !ok {
+			return
+		}
+		name, ok := ssax.ConstString(mu.Key)
+		if !ok {
+			return
+		}
+		v := mu.Value
+		for {
+			if ct, ok := v.(*ssa.ChangeType); ok {
+				v = ct.X
+				continue
+			}
+			break
+		}
+		if fn, ok := v.(*ssa.Function); ok {
+			// a method expression is wrapped in a synthetic thunk: unwrap to the method
+			if fn.Synthetic != "" && len(fn.Blocks) == 1 {
+				for _, ins := range fn.Blocks[0].Instrs {
+					if c, ok := ins.(*ssa.Call); ok && c.Call.StaticCallee() != nil {
+						fn = c.Call.StaticCallee()
+					}
+				}
+			}
+			out[name] = fn
+		}
+	})
+	return out
+}
+
+// docSynopses parses the "  - [!] name args" lines of the package comment.
+type synopsis struct {
+	Name     string
+	Neg      bool
+	Min, Max int // Max < 0: unbounded
+	Text     string
+}
+
+func docSynopses(p *core.Prog) map[string]synopsis {
+	out := map[string]synopsis{}
+	pk := p.TPkg("testscript")
+	if pk == nil {
+		return out
+	}
+	var doc string
+	for _, f := range pk.Syntax {
+		if f.Doc != nil && strings.Contains(f.Doc.Text(), "The predefined commands are:") {
+			doc = f.Doc.Text()
+		}
+	}
+	i := strings.Index(doc, "The predefined commands are:")
+	if i < 0 {
+		return out
+	}
+	doc = doc[i:]
+	if j := strings.Index(doc, "When TestScript runs a script"); j >= 0 {
+		doc = doc[:j]
+	}
+	re := regexp.MustCompile(`(?m)^\s*- (\[!\] )?([a-z0-9]+)(.*)$`)
+	for _, m := range re.FindAllStringSubmatch(doc, -1) {
+		s := synopsis{Name: m[2], Neg: m[1] != "", Text: strings.TrimSpace(m[0])}
+		toks := strings.Fields(m[3])
+		// re-join bracket groups
+		var args []string
+		cur := ""
+		for _, t := range toks {
+			if cur != "" {
+				cur += " " + t
+				if strings.Contains(t, "]") {
+					args = append(args, cur)
+					cur = ""
+				}
+				continue
+			}
+			if strings.HasPrefix(t, "[") && !strings.Contains(t, "]") {
+				cur = t
+				continue
+			}
+			args = append(args, t)
+		}
+		for _, a := range args {
+			opt := strings.HasPrefix(a, "[")
+			variadic := strings.Contains(a, "...")
+			if !opt {
+				s.Min++
+			}
+			if variadic {
+				s.Max = -1
+			}
+			if s.Max >= 0 {
+				s.Max++
+			}
+		}
+		out[s.Name] = s
+	}
+	return out
+}
+
+func (s synopsis) allows(n int) bool { return n >= s.Min && (s.Max < 0 || n <= s.Max) }
+
+// influences reports whether parameter idx of f reaches a branch condition,
+// directly, through a callee parameter, or through a struct field store.
+func influences(p *core.Prog, f *ssa.Function, idx int, depth int) bool {
+	if depth > 3 || idx >= len(f.Params) {
+		return false
+	}
+	par := f.Params[idx]
+	g := graph(p, f)
+	hit := false
+	g.Instrs(func(i ssa.Instruction) {
+		switch x := i.(type) {
+		case *ssa.If:
+			if ssax.DerivedFrom(x.Cond, isVal(par), nil) {
+				hit = true
+			}
+		case *ssa.Store:
+			if x.Val == ssa.Value(par) {
+				if _, ok := x.Addr.(*ssa.FieldAddr); ok {
+					hit = true
+				}
+			}
+		case *ssa.Call:
+			if cal := x.Call.StaticCallee(); cal != nil && core.InModule(cal) {
+				for ai, a := range x.Call.Args {
+					if a == ssa.Value(par) && influences(p, cal, ai, depth+1) {
+						hit = true
+					}
+				}
+			}
+		}
+	})
+	// composite literal field (backgroundCmd{..., neg})
+	for _, r := range ssax.Referrers(par) {
+		if st, ok := r.(*ssa.Store); ok {
+			if _, ok := st.Addr.(*ssa.FieldAddr); ok {
+				hit = true
+			}
+		}
+	}
+	return hit
+}
+
+// verdictSite describes one place where a command decides success/failure.
+type verdictSite struct {
+	fn      *ssa.Function
+	name    string
+	start   ssax.Point
+	outcome func(v ssa.Value, nilness bool, success bool) ssax.Abs // interpretation of the outcome atoms
+	neg     func(v ssa.Value) bool                                 // the polarity atom (param or field load)
+	extra   func(v ssa.Value, nilness bool) ssax.Abs               // other fixed atoms
+	perIter bool
+}
+
+func c01Commands(ctx *core.Ctx) {
+	p := ctx.P
+	ctx.Rule("V7", "negation discipline: with neg=true every built-in either ends in Fatalf on all paths (rejects '!') or lets neg influence a branch, a callee's branch or the stored background record (honours '!'); the set that honours '!' equals the set of synopses marked [!] in doc.go", 24)
+	ctx.Rule("V8", "verdict implications at each place a command decides: (I1) neg and success => no normal continuation, only Fatalf; (I2) not neg and failure => likewise; (I3) not neg and success => a normal continuation exists; (I4) neg and failure => a normal continuation exists unless the script's context expired; the end-of-script wait (checkStatus=false) never reaches Fatalf", 20)
+	ctx.Rule("V11", "Fatalf scope: every call made by run, its deferred calls and RunT's closures that may raise the sentinel (reach Fatalf/Check under the constant arguments of the call) targets a function that installs a catch frame; anything else raises a raw panic that no one converts into a test failure", 6)
+	ctx.Rule("V12", "arity agreement: for every argument count the doc.go synopsis of a command allows, the command's usage guard must not reject the line on every path (a documented line reported as failed is a false FAIL); undocumented accepted counts are reported as information", 20)
+	ctx.Rule("V14", "no line can crash the interpreter: every index/slice expression, type assertion, division and explicit panic in runLine, the built-ins and their helpers is proved unable to fire from the usage guards that dominate it", 40)
+
+	cmds := builtinCmds(p)
+	doc := docSynopses(p)
+	if len(cmds) < 20 || len(doc) < 20 {
+		ctx.Unknown("V7", "testscript#command-table", token.NoPos, "command table (%d entries) or doc synopses (%d) not recognised", len(cmds), len(doc))
+		return
+	}
+	var names []string
+	for n := range cmds {
+		names = append(names, n)
+	}
+	sort.Strings(names)
+	_ = func(i ssa.Instruction) bool { return ssax.IsCallTo(i, tsFatalf) }
+
+	// ---- V7
+	honours := map[string]bool{}
+	for _, n := range names {
+		f := cmds[n]
+		ctx.Seen(f)
+		g := graph(p, f)
+		negP := f.Params[1]
+		ex := &ssax.Explorer{G: g, Assume: func(v ssa.Value, nilness bool) ssax.Abs {
+			if v == ssa.Value(negP) && !nilness {
+				return ssax.True
+			}
+			return ssax.Unknown
+		}}
+		rejects := true
+		for _, e := range ex.Run(ssax.Point{Block: 0}) {
+			if e.Kind == ssax.ExitReturn {
+				rejects = false
+			}
+		}
+		if rejects && !ex.Overflow {
+			ctx.OK("V7", "testscript.cmd:"+n, f.Pos(), "'! %s' ends in Fatalf (or another no-return call) on every path: the prefix is rejected", n)
+			continue
+		}
+		if influences(p, f, 1, 0) {
+			honours[n] = true
+			ctx.OK("V7", "testscript.cmd:"+n, f.Pos(), "'! %s' is honoured: neg reaches a verdict branch", n)
+		} else {
+			ctx.Bad("V7", "testscript.cmd:"+n, f.Pos(), "'! %s' is neither rejected nor consulted: a negated line behaves exactly like the plain one, so a command that was required to fail passes when it succeeds", n)
+		}
+	}
+	var docNeg, codeNeg []string
+	for n, s := range doc {
+		if s.Neg {
+			docNeg = append(docNeg, n)
+		}
+	}
+	for n := range honours {
+		codeNeg = append(codeNeg, n)
+	}
+	sort.Strings(docNeg)
+	sort.Strings(codeNeg)
+	ctx.Check(strings.Join(docNeg, ",") == strings.Join(codeNeg, ","), "V7", "testscript#doc-negation-set", token.NoPos, "doc.go marks %v with [!]; the code honours '!' for %v", docNeg, codeNeg)
+	for _, n := range names {
+		if _, ok := doc[n]; !ok {
+			ctx.Note("V7", "testscript.cmd:"+n+"#undocumented", cmds[n].Pos(), "built-in %q has no synopsis in doc.go", n)
+		}
+	}
+
+	// ---- V8
+	c01Verdicts(ctx, cmds)
+
+	// ---- V11
+	c01FatalScope(ctx)
+
+	// ---- V12
+	for _, n := range names {
+		s, ok := doc[n]
+		if !ok {
+			continue
+		}
+		f := cmds[n]
+		g := graph(p, f)
+		argsP := f.Params[2]
+		negP := f.Params[1]
+		for k := 0; k <= 4; k++ {
+			lenEval := func(v ssa.Value) (int64, bool) {
+				c, ok := v.(*ssa.Call)
+				if !ok {
+					return 0, false
+				}
+				b, ok := c.Call.Value.(*ssa.Builtin)
+				if ok && b.Name() == "len" && c.Call.Args[0] == ssa.Value(argsP) {
+					return int64(k), true
+				}
+				return 0, false
+			}
+			ex := &ssax.Explorer{G: g, Assume: func(v ssa.Value, nilness bool) ssax.Abs {
+				if nilness {
+					return ssax.Unknown
+				}
+				if v == ssa.Value(negP) {
+					return ssax.False
+				}
+				if b, ok := v.(*ssa.BinOp); ok {
+					l, okl := lenEval(b.X)
+					r, okr := ssax.ConstInt(b.Y)
+					if okl && okr {
+						switch b.Op {
+						case token.EQL:
+							return ssax.AbsOf(l == r)
+						case token.NEQ:
+							return ssax.AbsOf(l != r)
+						case token.LSS:
+							return ssax.AbsOf(l < r)
+						case token.LEQ:
+							return ssax.AbsOf(l <= r)
+						case token.GTR:
+							return ssax.AbsOf(l > r)
+						case token.GEQ:
+							return ssax.AbsOf(l >= r)
+						}
+					}
+				}
+				return ssax.Unknown
+			}}
+			// stop exploring at the first call that is not a usage Fatalf: we only ask
+			// whether some path survives the usage guards
+			survives := false
+			usage := 0
+			ex.Visit = func(i ssa.Instruction) ssax.Action {
+				c, ok := i.(*ssa.Call)
+				if !ok {
+					return ssax.Continue
+				}
+				if ssax.CalleeName(&c.Call) == tsFatalf {
+					if f, ok := ssax.ConstString(c.Call.Args[1]); ok && strings.HasPrefix(f, "usage:") {
+						usage++
+						return ssax.Stop
+					}
+				}
+				return ssax.Continue
+			}
+			for _, e := range ex.Run(ssax.Point{Block: 0}) {
+				_ = e
+				survives = true
+			}
+			key := fmt.Sprintf("testscript.cmd:%s#args=%d", n, k)
+			switch {
+			case s.allows(k) && !survives && usage > 0:
+				ctx.Bad("V12", key, f.Pos(), "doc.go documents %q, which allows %d argument(s), but with %d argument(s) every path of %s ends in its usage failure: a documented line is reported as FAIL", s.Text, k, k, n)
+			case s.allows(k):
+				ctx.OK("V12", key, f.Pos(), "%d argument(s) allowed by %q and accepted by the usage guard", k, s.Text)
+			case survives && !s.allows(k):
+				ctx.Note("V12", key, f.Pos(), "%d argument(s) accepted although %q does not document it", k, s.Text)
+			}
+		}
+	}
+
+	// ---- V14
+	// runLine itself keeps 'args' in memory (a closure captures it); go/ssa does not lift such
+	// variables and the bounds engine has no memory-SSA, so runLine's own index expressions are
+	// not claimed here. The commands receive args as a plain parameter.
+	var entries []*ssa.Function
+	for _, n := range names {
+		entries = append(entries, cmds[n])
+	}
+	if f := p.Func("gotooltest", "cmdGo"); f != nil {
+		entries = append(entries, f)
+	}
+	stopAt := map[string]bool{}
+	for _, n := range []string{"parse", "expand", "exec", "execBackground", "buildExecCmd", "abbrev", "Logf", "logStd", "clearBuiltinStd", "setBuiltinStd"} {
+		stopAt["(*"+tsPkg+".TestScript)."+n] = true
+	}
+	stopAt[tsPkg+".waitOrStop"] = true // C17.DL2 examines it
+	totality(ctx, entries, totalOpts{rule: "V14",
+		stop: func(f *ssa.Function) bool {
+			n := ssax.FuncName(f)
+			if stopAt[n] {
+				return true
+			}
+			top := f
+			for top.Parent() != nil {
+				top = top.Parent()
+			}
+			if top.Pkg == nil {
+				return true
+			}
+			pp := top.Pkg.Pkg.Path()
+			return pp != tsPkg && pp != core.ModPath+"/gotooltest" && pp != core.ModPath+"/internal/misspell"
+		},
+		allowPanic: func(pn *ssa.Panic) string {
+			// re-panic of a recovered value, or Fatalf's own sentinel panic
+			if c, ok := pn.X.(*ssa.Call); ok && ssax.CalleeName(&c.Call) == "builtin.recover" {
+				return "re-panic of a recovered value"
+			}
+			if isGlobalLoad("failNow")(pn.X) {
+				return "the sentinel panic of Fatalf (caught by runLine)"
+			}
+			if s, ok := ssax.ConstString(ssax.Strip(pn.X)); ok && s == "unreachable" {
+				return "after a no-return call"
+			}
+			if !pn.Pos().IsValid() {
+				return "compiler-synthesised arm of a blocking select (cannot execute)"
+			}
+			return ""
+		},
+		assertOK: func(ta *ssa.TypeAssert) string {
+			// cmd.Stdout/Stderr of a background command: only *strings.Builder is ever stored there
+			if isFieldLoad("Stdout")(ta.X) || isFieldLoad("Stderr")(ta.X) {
+				if backgroundStdTypesOK(p) {
+					return "every store to Stdout/Stderr of an exec.Cmd in package testscript stores a *strings.Builder"
+				}
+			}
+			if c, ok := ta.X.(*ssa.Call); ok && strings.HasSuffix(ssax.CalleeName(&c.Call), "par.Cache).Do") {
+				if ok, _ := doResultTypeOK(p, c); ok {
+					return "the cache callback returns exactly the asserted type (C10.K7)"
+				}
+			}
+			return ""
+		},
+		assume: func(fn *ssa.Function, s boundx.Site) string {
+			// bg.cmd.Args[0], bg.cmd.Args[1:]: Args of a command built by exec.Command
+			var seq ssa.Value
+			switch x := s.Instr.(type) {
+			case *ssa.IndexAddr:
+				seq = x.X
+			case *ssa.Slice:
+				seq = x.X
+			}
+			if seq != nil && isFieldLoad("Args")(seq) && backgroundCmdsFromExecCommand(p) {
+				return "exec.Command always sets Cmd.Args to at least the program name, and every *exec.Cmd stored in TestScript.background was created by exec.Command (buildExecCmd is the only constructor)"
+			}
+			// kv[:strings.Index(kv, "=")] for kv ranging over ts.env
+			if sl, ok := s.Instr.(*ssa.Slice); ok && fn.Name() == "cmdEnv" {
+				if c, ok := sl.High.(*ssa.Call); ok && ssax.CalleeName(&c.Call) == "strings.Index" && isConstStr("=")(c.Call.Args[1]) {
+					if envEntriesWellFormed(p) {
+						return "every entry of TestScript.env contains '=': all writers inside the module append KEY=VALUE (setup's literals, Env.Setenv, TestScript.Setenv); only a user Setup that appends a malformed string to Env.Vars could break it, and Setup is outside the property's quantifier"
+					}
+				}
+			}
+			return ""
+		},
+	})
+}
+
+// backgroundStdTypesOK: all stores to exec.Cmd.Stdout/Stderr in testscript store *strings.Builder.
+func backgroundStdTypesOK(p *core.Prog) bool {
+	ok := true
+	n := 0
+	for _, f := range p.ModFuncs() {
+		top := f
+		for top.Parent() != nil {
+			top = top.Parent()
+		}
+		if top.Pkg != p.Pkg("testscript") {
+			continue
+		}
+		graph(p, f).Instrs(func(i ssa.Instruction) {
+			st, isSt := i.(*ssa.Store)
+			if !isSt {
+				return
+			}
+			fa, isFA := st.Addr.(*ssa.FieldAddr)
+			if !isFA || !isNamed(fa.X.Type(), "os/exec", "Cmd") {
+				return
+			}
+			nm := ssax.FieldOf(fa).Name()
+			if nm != "Stdout" && nm != "Stderr" {
+				return
+			}
+			n++
+			mi, isMI := st.Val.(*ssa.MakeInterface)
+			if !isMI || mi.X.Type().String() != "*strings.Builder" {
+				ok = false
+			}
+		})
+	}
+	return ok && n >= 4
+}
+
+// envEntriesWellFormed: every append to TestScript.env / Env.Vars inside the
+// module appends a string built as key + "=" + value.
+func envEntriesWellFormed(p *core.Prog) bool {
+	ok := true
+	hasEq := func(v ssa.Value) bool {
+		return ssax.DerivedFrom(v, func(x ssa.Value) bool {
+			s, isS := ssax.ConstString(x)
+			return isS && strings.Contains(s, "=")
+		}, nil)
+	}
+	for _, f := range p.ModFuncs() {
+		top := f
+		for top.Parent() != nil {
+			top = top.Parent()
+		}
+		if top.Pkg != p.Pkg("testscript") {
+			continue
+		}
+		graph(p, f).Instrs(func(i ssa.Instruction) {
+			st, isSt := i.(*ssa.Store)
+			if !isSt {
+				return
+			}
+			fa, isFA := st.Addr.(*ssa.FieldAddr)
+			if !isFA {
+				return
+			}
+			nm := ssax.FieldOf(fa).Name()
+			if !(nm == "env" && isNamed(fa.X.Type(), tsPkg, "TestScript")) && !(nm == "Vars" && isNamed(fa.X.Type(), tsPkg, "Env")) {
+				return
+			}
+			c, isC := st.Val.(*ssa.Call)
+			if !isC || ssax.CalleeName(&c.Call) != "builtin.append" {
+				// ts.env = env.Vars (copy) or a literal
+				if isFieldLoad("Vars")(st.Val) {
+					return
+				}
+				if sl, isSl := st.Val.(*ssa.Slice); isSl {
+					for _, e := range variadicElems(sl) {
+						if !hasEq(e) {
+							ok = false
+						}
+					}
+					return
+				}
+				ok = false
+				return
+			}
+			for _, e := range variadicElems(c.Call.Args[1]) {
+				if !hasEq(e) {
+					ok = false
+				}
+			}
+		})
+	}
+	return ok
+}
+
+var _ = ast.Inspect
+
+// backgroundCmdsFromExecCommand: the only *exec.Cmd values constructed in package
+// testscript come from exec.Command (no &exec.Cmd{} literals).
+func backgroundCmdsFromExecCommand(p *core.Prog) bool {
+	ok := true
+	n := 0
+	for _, f := range p.ModFuncs() {
+		top := f
+		for top.Parent() != nil {
+			top = top.Parent()
+		}
+		if top.Pkg != p.Pkg("testscript") {
+			continue
+		}
+		graph(p, f).Instrs(func(i ssa.Instruction) {
+			if al, isAl := i.(*ssa.Alloc); isAl && isNamed(al.Type(), "os/exec", "Cmd") {
+				ok = false
+			}
+			if c, isC := i.(*ssa.Call); isC && ssax.CalleeName(&c.Call) == "os/exec.Command" {
+				n++
+			}
+		})
+	}
+	return ok && n > 0
+}
